@@ -16,6 +16,9 @@ impl RtBuilder {
     pub fn enable_time(self) -> (r: RtBuilder) ensures r.time && r.io == self.io && r.multi == self.multi { RtBuilder { time: true, io: self.io, multi: self.multi } }
     pub fn enable_io(self) -> (r: RtBuilder) ensures r.io && r.time == self.time && r.multi == self.multi { RtBuilder { time: self.time, io: true, multi: self.multi } }
     pub fn worker_threads(self, n: usize) -> (r: RtBuilder) ensures r == self { self }
+    pub fn thread_name(self, n: &str) -> (r: RtBuilder) ensures r == self { self }
+    pub fn thread_stack_size(self, n: usize) -> (r: RtBuilder) ensures r == self { self }
+    pub fn max_blocking_threads(self, n: usize) -> (r: RtBuilder) ensures r == self { self }
     #[verifier::external_body]
     pub fn build(self) -> (r: Result<TokioRuntime, IoError>) ensures r is Ok, r->Ok_0.time == self.time && r->Ok_0.io == self.io && r->Ok_0.multi == self.multi { unimplemented!() }
 }
